@@ -25,10 +25,10 @@ INVERSE = {'append': 'remove', 'remove': 'append', 'add_layer': 'remove_layer', 
 
 def run(ctx):
     ix = ctx.index
-    rule_a(ctx, ix)
-    rule_b(ctx, ix)
-    rule_c(ctx, ix)
-    rule_d(ctx, ix)
+    ctx.guard(rule_a, ctx, ix)
+    ctx.guard(rule_b, ctx, ix)
+    ctx.guard(rule_c, ctx, ix)
+    ctx.guard(rule_d, ctx, ix)
 
 
 def _stmts(f):
